@@ -31,6 +31,8 @@ def primOf : String → Option Ty
   | "i8" => some .i8 | "i16" => some .i16 | "i32" => some .i32 | "i64" => some .i64
   -- Go defined types over the same underlying integers (the model has one type per layout)
   | "nu8" => some .u8 | "ni16" => some .i16 | "nu32" => some .u32 | "ni64" => some .i64
+  -- floats travel as their IEEE bit patterns: encoding/binary writes Float32bits / Float64bits
+  | "f32" => some .u32 | "f64" => some .u64
   | _ => none
 
 mutual
